@@ -88,12 +88,15 @@ def h_dq(nitems, with_remover, with_closer):
             api.check(rec.got.index(items[0]) < rec.got.index(items[1]), "elements leave in the order they were put in")
     if not with_closer:
         api.check(not (None in rec.got), "get() returns the end marker only after close()")
+        if not with_remover:
+            for it in items:
+                api.check(rec.got.count(it) == 1, "every element put in is returned by get() exactly once")
         nhanded = 0
         for it in items:
             if (it in rec.got) | (rec.removed is it):
                 nhanded += 1
-        if nhanded < nitems:
-            # exactly one element was neither returned nor removed: it must still be deliverable
+        if with_remover and nhanded < nitems:
+            # (without a remover the consumer takes everything) exactly one element was neither returned nor removed: it must still be deliverable
             api.check(nhanded == nitems - 1, "at most one element is still queued when the consumer has done its gets")
             last = q.get()
             api.check(last is not None, "a queued element is deliverable")
@@ -117,7 +120,7 @@ def check(rep):
     ]
     if not quick:
         specs.append(dict(name="3 elements: producer | consumer", module=mod, harness="h_dq", args=(3, False, False),
-                          steps=20))
+                          steps=28))
         specs.append(dict(name="2 elements: producer | consumer | remover | closer", module=mod, harness="h_dq",
                           args=(2, True, True), steps=22, racy=[("DelayedQueue", "_closed")]))
     for sp in specs:
